@@ -802,10 +802,29 @@ def r3_ranges(program, rep):
                 [("attr", MG, "key"), ("attr", MG, "mask")],
                 [C._comp(yt, 0, 2), C._comp(yt, 1, 2)], t)
                 for t, p in C.all_facts(yn))
-    rep.check(ok, "C04-R3", qual(cv), "down-check: every entry from the "
-              "insertion index downwards, expanded through the aliases it "
-              "stands for, is tested against the merged key/mask",
-              construct="down-check range", node=cv)
+    skipped = []
+    if ok:
+        # ... and no entry is left out of the scan by another test on it
+        for t, p in C.all_facts(yn):
+            if any(st_ == LOWER for st_ in subterms(t)) and not _intersects(
+                    [("attr", MG, "key"), ("attr", MG, "mask")],
+                    [C._comp(yt, 0, 2), C._comp(yt, 1, 2)], t):
+                skipped.append((t, p))
+        if any(t[0] == "cmp" and t[1] == "In" and
+               plain(t[3]) == ("attr", MG, "entries") for t, p in skipped):
+            raise AnalysisError("_get_covered_keys_and_masks: members of "
+                                "the merge itself are left out of the scan; "
+                                "that form is not analysed")
+    rep.check(ok and not skipped, "C04-R3", qual(cv), "down-check: every "
+              "entry from the insertion index downwards, expanded through "
+              "the aliases it stands for, is tested against the merged "
+              "key/mask", construct="down-check range", node=cv,
+              fail="the down-check leaves out entries below the insertion "
+                   "point (only those with %s are looked at): a merged entry "
+                   "can be placed above an entry whose keys it captures "
+                   "without this being noticed" % "; ".join(
+                       "%s%s" % ("" if p_ else "not ", show(t_)[:70])
+                       for t_, p_ in skipped) if skipped else None)
     # the merging starts from the table in increasing order of generality,
     # entries of equal generality staying in the order given (a stable sort
     # on the generality alone)
